@@ -43,7 +43,11 @@ class _HidDispatch:
 
     def hidapi_exit(self):
         _check_foreign()
-        _CURRENT.link.tlog("hidapi_exit")
+        link = _CURRENT.link
+        if hasattr(link, "hidapi_exit"):
+            link.hidapi_exit()
+        else:
+            link.tlog("hidapi_exit")
 
 
 class _TimeDispatch:
